@@ -40,8 +40,16 @@ ASSUMPTIONS = [
     'plugin contract for C06_total: hooks raise only HttpProtocolException subclasses (the crash case is C06_crash_escapes)',
 ]
 EXHAUSTIVE = {}
+EXPLANATION = ('Lean: decision table of handle_data in the first-request phase for every state, plugin configuration and '
+               'byte string (C06_total), shape of every run over all segment lists and "no byte is read after a reject" '
+               '(C06_trace, C06_reject_stops_reading), the parser loop never ends by fuel from any reachable state '
+               '(C06_parse_fuel), every canned packet is well formed per an RFC 7230 checker (kernel-evaluated on the '
+               'generated literals) and build_http_response / okResponse / redirects / HttpRequestRejected / websocket '
+               'handshake are well formed for all arguments inside SafeArgs (C06_builders*); outside the guard a witness '
+               'is reported.  Python: the models are compared with the real handler and builders on the cases counted '
+               'here; the oracle judges the implementation alone with h11.')
 
-HANG_CPU_S = 10      # an endless loop burns CPU: decisive, and robust against a loaded machine
+HANG_CPU_S = 6       # an endless loop burns CPU: decisive, and robust against a loaded machine
 HANG_WALL_S = 50     # wall-clock guard (below the engine's per-case limit)
 
 
@@ -57,7 +65,7 @@ def _on_alarm(signum, frame):
     raise Hang('wall')
 
 
-def guarded(fn, *a):
+def guarded(fn, *a, cpu=None):
     """Run fn; a run that does not come back is the result 'hang'.  The CPU-time limit is decisive;
     when only the wall clock expired although the process got almost no CPU (starved by other jobs
     on the machine) the attempt is repeated before it is called a hang."""
@@ -67,14 +75,12 @@ def guarded(fn, *a):
         old_p = signal.signal(signal.SIGPROF, _on_prof)
         t0 = time.process_time()
         signal.setitimer(signal.ITIMER_REAL, HANG_WALL_S)
-        signal.setitimer(signal.ITIMER_PROF, HANG_CPU_S)
+        signal.setitimer(signal.ITIMER_PROF, cpu or HANG_CPU_S)
         try:
             return fn(*a)
         except Hang as e:
             if e.args == ('wall',) and time.process_time() - t0 < HANG_CPU_S / 2 and attempt < 2:
                 continue
-            if e.args == ('cpu',) and attempt < 1:
-                continue        # once more: the first call in a process also pays for imports
             return 'hang'
         finally:
             signal.setitimer(signal.ITIMER_PROF, 0)
@@ -334,7 +340,7 @@ def model_lines(case):
     k = case['kind']
     if k == 'run':
         # the plugin parameter of the model is what the real plugin did (see ASSUMPTIONS)
-        r = guarded(drive, case)
+        r = guarded(drive, case, cpu=2)
         if r == 'hang':
             return ['first run - none . ' + ' '.join(case['segs'])]
         _, rec, _ = r
@@ -885,12 +891,12 @@ def neighbours(case):
     for web in (0, 1):
         for plan in ('ok', 'refuse'):
             yield dict(case, web=web, plan=plan, segs=[raw.hex()])
-    for i in range(1, len(raw), max(1, len(raw) // 24)):
+    for i in range(1, len(raw), max(1, len(raw) // 6)):
         yield dict(case, segs=[raw[:i].hex(), raw[i:].hex()])
 
 
 def search(rng):
-    return list(corpus()) + list(generate(rng, 'quick'))
+    return [c for c in generate(rng, 'quick') if c['kind'] != 'wf'][:1500]
 
 
 def describe(case):
